@@ -48,6 +48,17 @@ out['kf1-stdin-big-text-then-program-output'] = ('act_command_line', base(
          'explicit_actor': True, 'comments_before': []},
     setup_stdin=ts_pgm(prog(cfg={'exit': 3, 'stdout': 'x\n', 'stderr': ''}), ignore=True)),
     'stdin = 71 kB file + output of a program: the output is inserted where the writer had flushed')
+# 2b. KF-C10-1, second shape: the text given to a `run` transformer is the raw output of a program
+out['kf1-run-transformer-with-stdin-on-program-output'] = ('instructions', base(
+    act={'k': 'program', 'p': prog()},
+    phases={'setup': [{'k': 'filefrom', 'rel': 'tmp', 'name': 'out-PB.txt', 'chan': 'stdout', 'ignore': False, 'paren': False,
+                       'p': prog(cfg={'exit': 0, 'stdout': 'OUT\n', 'stderr': ''},
+                                 tr=[['run', prog(stdin=ts_str('own '), cfg={'exit': 0, 'stdout': 'result', 'stderr': ''}), False]])},
+                      {'k': 'filefrom', 'rel': 'tmp', 'name': 'out-PC.txt', 'chan': 'stdout', 'ignore': False, 'paren': False,
+                       'p': prog(cfg={'exit': 0, 'stdout': 'OUT\n', 'stderr': ''},
+                                 tr=[['lower'], ['run', prog(stdin=ts_str('own '), cfg={'exit': 0, 'stdout': 'result', 'stderr': ''}), False]])}]}),
+    '`run PROGRAM` transformer: "If PROGRAM defines stdin, then the text to transform is appended to that stdin"; '
+    'observed "OUT\\nown " when the text is the raw output of a program, "own out\\n" after another transformer')
 # 3. a token that is exactly one unquoted reference to a list = its elements (also none)
 out['naked-list-reference-is-spliced'] = ('act_command_line', base(
     syms=[sym_l('L1', []), sym_l('L2', ['x', 'y z', '']), sym_s('S1', '')],
@@ -109,6 +120,25 @@ out['file-from-program-output-local-def'] = ('instructions', base(
                               {'k': 'filefrom', 'rel': 'cd', 'name': 'out-PB.txt', 'chan': 'stdout', 'ignore': True,
                                'p': ref('PB2', [lit('c')], tr=[['lower']]), 'paren': True, 'local_defs': True}]}),
     'contents = output transformed in definition order (upper, A->x, lower); file in the current directory')
+
+# 10. a separate act-home directory: default relativities of the executable of [act] / FILE of the file interpreter
+#     (act-home) differ from those of run, -existing-file, -contents-of (home)
+out['act-home-is-not-home-command-line'] = ('act_command_line', base(
+    act_home='ah',
+    act={'k': 'program', 'p': prog('exe', variant='default',
+                                   args=[{'k': 'xpath', 'opt': 'file', 'rel': 'default', 'name': 'data/f1.txt'},
+                                         {'k': 'xpath', 'opt': 'path', 'rel': 'act-home', 'name': 'data/f1.txt'}],
+                                   stdin={'k': 'file', 'name': 'data/f1.txt', 'rel': 'act-home', 'paren': False}),
+         'explicit_actor': True, 'comments_before': []},
+    setup_stdin={'k': 'file', 'name': 'data/f1.txt', 'rel': 'default', 'paren': False}),
+    'executable found in act-home; -existing-file default = home; -contents-of -rel-act-home reads the act-home copy')
+out['act-home-is-not-home-file-interpreter'] = ('act_interpreters', base(
+    act_home='ah',
+    act={'k': 'file', 'variant': 'probe-is-interpreter', 'cfg': {'exit': 0, 'stdout': '', 'stderr': ''}, 'rel': 'default',
+         'interp': 'sys', 'via': 'conf', 'name': 'data/src.txt', 'iargs': [lit('-i')],
+         'args': [lit('a'), {'k': 'xpath', 'opt': 'file', 'rel': 'default', 'name': 'data/f1.txt'}], 'last': None, 'cont': None}),
+    'interpreter arguments, then the source file (absolute path in act-home), then the arguments of [act]')
+
 
 def main():
     os.makedirs(os.path.join(root, 'replays', 'C10'), exist_ok=True)
